@@ -19,7 +19,7 @@ RULE = ("each generated program is run twice: fault-free and with a fault plan o
 ASSUMPTIONS = ["the fault plan counts user-code entries of the chosen definition; both runs use the same program and inputs",
                "dependency cone computed by vp/model.flatten over the program text",
                "g++-12 -O1 build of the working tree with harness-side shims"]
-FLOORS = {"captured_throws": {"quick": 300, "thorough": 5000}, "later_activations_checked": {"quick": 400, "thorough": 6000},
+FLOORS = {"soft_error_throws": {"quick": 40, "thorough": 600}, "soft_findings_on_the_ordinary_output": {"quick": 60, "thorough": 900}, "captured_throws": {"quick": 300, "thorough": 5000}, "later_activations_checked": {"quick": 400, "thorough": 6000},
           "outside_cone_runs_compared": {"quick": 5000, "thorough": 80000}, "try_except_cases": {"quick": 100, "thorough": 1500},
           "thrower_not_first_in_child": {"quick": 40, "thorough": 600}, "map_key_throws": {"quick": 150, "thorough": 2500},
           "captured_throw_with_pending_timer": {"quick": 5, "thorough": 100},
@@ -175,7 +175,62 @@ def generate(rng, tier, seed):
             cases += list(pr)
             got += 1
     cases += [gen_try_map(rng, f"c15tm_{seed}_{j}") for j in range(max(8, nm // 3))]
+    cases += [gen_soft_error(rng, f"c15se_{seed}_{j}") for j in range(max(8, nm // 3))]
     return cases
+
+
+def gen_soft_error(rng, name):
+    """A capturing node whose ORDINARY output has the error schema too (it publishes 'soft findings' as error values and throws on
+    hard failures); the same value-producing consumer definition, with equal scalars, is wired once on the ordinary output and
+    once on the error output. Oracle: the reader of the error output ticks exactly in the throwing cycles with the exception's
+    message, the reader of the ordinary output exactly in the soft-finding cycles; they are two nodes."""
+    from .prog import Case
+    end = rng.choice([16, 24, 36])
+    c = Case(name, 0, end)
+    c.scripts[1] = [(t, rng.randint(1, 60)) for t in sorted(rng.sample(range(0, end), rng.choice([6, 10, 15])))]
+    order = rng.random() < 0.5
+    readers = [S("x", "errlen", "v", uid=20), S("y", "errlen", "e", uid=20)]
+    c.graphs["main"] = [S("a", "src", uid=1, mode=1), S("v", "validate", "a", uid=10), S("e", "err", "v")] + \
+        (readers if order else readers[::-1]) + [S("", "rec", "x", uid=30), S("", "rec", "y", uid=31)]
+    n = len(c.scripts[1])
+    c.faults = [(10, "eval", o) for o in sorted(rng.sample(range(1, n + 1), rng.choice([1, 2, 3])))]
+    c.meta.update(how="softerr", role="fault")
+    return c
+
+
+def check_soft_error(case, tr):
+    res = Result(signature=case.text().split("\n", 1)[1])
+    if tr.build_error or not tr.runs:
+        res.violations.append(Violation(f"valid program rejected at build: {tr.build_error}"))
+        return res
+    run = tr.runs[0]
+    V = res.violations
+    if run.error:
+        V.append(Violation(f"run with a captured fault did not continue: {run.error[:200]}"))
+        return res
+    evals, throws, errs, cyc = summarize(run)
+    th = {t: occ for u, t, occ in throws if u == 10}
+    soft = sorted(t for t, v in case.scripts[1] if t < case.end and v % 3 == 0 and t not in th)
+    x = sorted(t for t, out, ins in evals.get(30, []))
+    y = sorted(t for t, out, ins in evals.get(31, []))
+    if y != sorted(th):
+        V.append(Violation(f"the reader of the ERROR output ticked at {y}; the capturing node threw at {sorted(th)} (its ordinary output, "
+                           f"which has the same schema, published soft findings at {soft})"))
+    if x != soft:
+        V.append(Violation(f"the reader of the ORDINARY output ticked at {x}; soft findings were published at {soft} (throws at {sorted(th)})"))
+    starts = {}
+    for seq, kind, tk in run.events:
+        if kind == "u.start" and int(tk[0]) == 20:
+            starts[(int(tk[1]), int(tk[2]))] = 1
+    if len(starts) != 2:
+        V.append(Violation(f"the same consumer definition wired on the ordinary output and on the error output of one node became "
+                           f"{len(starts)} node(s)"))
+    for u, t, mod, msg in errs:
+        if u == 20 and t in th and f"verif-fault_uid=10_phase=eval_occ={th[t]}" not in msg and "soft_finding" not in msg:
+            V.append(Violation(f"error tick at t={t} does not carry the exception's message: {msg[:120]!r}"))
+    res.counters = {"soft_error_cases": 1, "soft_error_throws": len(th), "soft_findings_on_the_ordinary_output": len(soft)}
+    res.nontrivial = bool(th) and bool(soft)
+    return res
 
 
 def gen_try_map(rng, name):
@@ -484,6 +539,8 @@ def check(case, tr):
         return res
     if case.meta.get("how") == "map":
         return check_map(case, tr)
+    if case.meta.get("how") == "softerr":
+        return check_soft_error(case, tr)
     if case.meta.get("how") == "trymap":
         return check_try_map(case, tr)
     run = tr.runs[0]
